@@ -40,7 +40,7 @@ COMPONENTS = {
     "oracle": ["refavro.conforms (independent conformance predicate)", "fastavro.validate", "writers accept + read back"],
 }
 PROBES = ["extreme_randint", "extreme_random", "extreme_getrandbits", "extreme_choices", "logical_schema",
-          "recursive_schema", "by_name_reference", "n_zero", "n_many", "generate_one"]
+          "recursive_schema", "by_name_reference", "n_zero", "n_many", "generate_one", "n_huge", "partial_consumption"]
 
 
 def setup():
@@ -189,6 +189,33 @@ def ambiguous_logical(n, v, depth=0):
 AMBIG_SIG = "generate:union-branch-ambiguity-with-logical-type"
 
 
+def _alter_named(s):
+    """Same type names, different definitions (other enum symbols, other fixed sizes): what a
+    generator sharing its named-type table with another call would pick up."""
+    if isinstance(s, list):
+        return [_alter_named(x) for x in s]
+    if isinstance(s, dict):
+        out = {k: v for k, v in s.items()}
+        t = s.get("type")
+        if t == "enum":
+            out["symbols"] = ["ZZ_" + x for x in s["symbols"]]
+            out.pop("default", None)
+        elif t == "fixed" and "logicalType" not in s:
+            out["size"] = s["size"] + 3
+        elif t == "record":
+            out["fields"] = [dict(f, type=_alter_named(f["type"])) for f in s.get("fields", [])]
+            for f in out["fields"]:
+                f.pop("default", None)
+        elif t == "array":
+            out["items"] = _alter_named(s["items"])
+        elif t == "map":
+            out["values"] = _alter_named(s["values"])
+        elif isinstance(t, (dict, list)):
+            out["type"] = _alter_named(t)
+        return out
+    return s
+
+
 def run_one(ch, ctx):
     F = common.fa()
     schema, gstats = gen.schema(ch, max_depth=2, max_fields=4, logical=True, recursion="nullable-once",
@@ -204,6 +231,11 @@ def run_one(ch, ctx):
     n = [None, 0, 1, 2, 3 + ch.draw(48)][mode]
     if mode == 4 and gstats.get("named", 0) > 4:
         n = min(n, 8)
+    if mode == 4 and ch.draw(300) == 299 and gstats.get("named", 0) <= 2 and not gstats.get("recursive"):
+        n = ch.pick([1000, 10000])
+        ctx.probe("n_huge")
+    if mode == 2 and ch.chance(20):
+        n = True   # a bool is an int: exactly one value
     rseed = ch.draw(1 << 30)
     sim = SimRandom(rseed, ch.pick([0, 5, 20, 60]), ctx)
     random.seed(rseed)   # should the library ever bypass the module attribute, runs stay repeatable
@@ -220,8 +252,21 @@ def run_one(ch, ctx):
                 values = [F.utils.generate_one(S)]
                 want = 1
             else:
-                values = list(F.utils.generate_many(S, n))
-                want = n
+                g = F.utils.generate_many(S, n)
+                if ch.chance(20) and n not in (0, None) and n is not True and n > 1:
+                    # lazy, interleaved consumption: one value now, the rest later
+                    ctx.probe("partial_consumption")
+                    values = [next(g)]
+                    # while the generator is suspended, generate from a schema that reuses the
+                    # same type names with other definitions
+                    try:
+                        F.utils.generate_one(_alter_named(schema))
+                    except RecursionError:
+                        pass
+                    values.extend(g)
+                else:
+                    values = list(g)
+                want = int(n)
         except RecursionError as e:
             raise Violation("generate", "RecursionError", detail={"injected": jsonable(sim.injected)},
                             sig="generate:RecursionError:sub-critical-schema", scenario=desc)
@@ -232,7 +277,7 @@ def run_one(ch, ctx):
     desc["injected"] = jsonable(sim.injected)
     if n == 0:
         ctx.probe("n_zero")
-    if n is not None and n > 2:
+    if n is not None and n is not True and n > 2:
         ctx.probe("n_many")
     if len(values) != want:
         raise Violation("count", "wrong-number-of-values", detail={"got": len(values), "want": want}, scenario=desc)
@@ -246,6 +291,8 @@ def run_one(ch, ctx):
             raise Violation("conforms", "validate-false", detail={"index": i, "value": jsonable(v)}, scenario=desc)
         if not refavro.conforms(node, v):
             raise Violation("conforms", "independent-predicate-rejects", detail={"index": i, "value": jsonable(v)}, scenario=desc)
+        if i >= 60:
+            continue   # very large n: the per-value binary round trip is sampled, the container below takes all
         fo = io.BytesIO()
         try:
             F.schemaless_writer(fo, S, v)
